@@ -240,10 +240,14 @@ def c20d(ctx):
     if ok:
         # a `None` sentinel for "file vanished" may be a second binding; the attributes are only read from the stat result
         src = [d for d in defs.of(unparse(a[0].value.value)) if not (isinstance(d[0], ast.Constant) and d[0].value is None)]
-        ok = len(src) == 1 and is_call(src[0][0], 'os.lstat', 'os.stat')
+        # lstat: a single-colour tile is a link to a shared file; its validators are those of the link (written when this
+        # address was stored), not of the old shared file
+        ok = len(src) == 1 and is_call(src[0][0], 'os.lstat')
         for s in a:
             ok = ok and {'tile.timestamp': 'st_mtime', 'tile.size': 'st_size'}[unparse(s.targets[0])] == s.value.attr
-    ctx.check(ok, 'FileCache.load_tile_metadata:one-stat', 'timestamp and size are read from one stat result (mtime -> timestamp, size -> size)', fm)
+    ctx.check(ok, 'FileCache.load_tile_metadata:one-stat', 'timestamp and size are read from one lstat result (mtime -> timestamp, size -> size)', fm,
+              fail='the validators are not taken from one os.lstat() of the tile location: for a linked single-colour tile Last-Modified/ETag '
+                   'come from the old shared file, a rewritten address is answered 304 for the validator of its previous content')
     tr = ctx.fn('mapproxy/service/tile.py:TileResponse.__init__')
     want = {'self.timestamp': 'tile.timestamp', 'self.size': 'tile.size', 'self.cacheable': 'tile.cacheable'}
     got = {unparse(s.targets[0]): unparse(s.value) for s in tr.walk() if isinstance(s, ast.Assign)}
